@@ -83,6 +83,7 @@ func Worker(id, tier string, i, n int) {
 		last   *explore.Stats
 		done   int  // largest bound completed (-1: none)
 		closed bool // nothing left to explore (requested bound reached or every interleaving covered)
+		all    bool // every interleaving covered
 		seen   map[string]bool
 		found  []explore.Found
 	}
@@ -130,12 +131,43 @@ func Worker(id, tier string, i, n int) {
 				st.closed = true
 				if stats.Pruned == 0 {
 					st.done = st.bound // nothing was cut by the bound: every interleaving has been explored
+					st.all = true
 				}
+			}
+		}
+	}
+	// Race-directed phase (only in a refinement round, i.e. when racing sites are known): every
+	// scenario whose exploration showed a race is explored again with two more deviations, which
+	// may only be spent around the racing accesses or on running a lazy thread.
+	focusStats := explore.NewStats()
+	if len(vs.Promoted) > 0 && !def.RacesAreViolations {
+		for _, st := range sts {
+			if capped || st.last == nil || len(st.last.Races) == 0 {
+				continue
+			}
+			fs := explore.NewStats()
+			e := &explore.Explorer{Bound: st.done + 2, Focus: true, Deadline: deadline, Stats: fs}
+			if st.done >= 1000 {
+				continue
+			}
+			ok := e.Explore(st.sc)
+			for _, f := range fs.Found {
+				if !st.seen[f.Violation] {
+					st.seen[f.Violation] = true
+					st.found = append(st.found, f)
+				}
+			}
+			focusStats.Focused += fs.Executions
+			focusStats.FocusedScen++
+			focusStats.Steps += fs.Steps
+			if !ok {
+				capped = true
 			}
 		}
 	}
 	total := explore.NewStats()
 	total.Capped = capped
+	total.Merge(focusStats)
 	minDone := 1 << 30
 	for _, st := range sts {
 		if st.last != nil {
@@ -143,6 +175,11 @@ func Worker(id, tier string, i, n int) {
 			total.Merge(st.last)
 		}
 		total.Found = append(total.Found, st.found...)
+		if st.all {
+			total.DoneAt["all interleavings"]++
+		} else {
+			total.DoneAt[fmt.Sprintf("bound=%d", st.done)]++
+		}
 		if st.done < minDone {
 			minDone = st.done
 		}
@@ -229,6 +266,7 @@ func Main(id, tier string) {
 	c.SetExtra("deviation_bound_requested_max", maxBound)
 	c.SetExtra("deviation_bound_completed_all_scenarios", minDone)
 	c.SetExtra("alternatives_cut_by_bound", total.Pruned)
+	c.SetExtra("scenarios_by_largest_bound_completed", total.DoneAt)
 	c.SetExtra("executions_where_threads_met", total.Met)
 	c.SetExtra("horizon_cut_executions_inconclusive", total.Inconclusive)
 	c.SetExtra("max_steps_per_execution", total.MaxSteps)
@@ -244,6 +282,8 @@ func Main(id, tier string) {
 		sort.Strings(races)
 		c.SetExtra("data_races", races)
 		if len(refinement) > 0 {
+			c.SetExtra("race_directed_executions", total.Focused)
+			c.SetExtra("race_directed_scenarios", total.FocusedScen)
 			c.SetExtra("race_refinement", refinement)
 			c.SetExtra("access_sites_promoted_to_scheduling_points", promoted)
 		}
@@ -452,4 +492,48 @@ func Race(id string, reps int) {
 		}
 	}
 	fmt.Printf("race pass %s: %d free runs, %d scenarios skipped (never end when running free)\n", id, runs, skipped)
+}
+
+// Debug explores the scenarios of a check whose spec contains every given substring and prints
+// what was seen (development aid).
+func Debug(id, tier string, bound int, subs []string) {
+	explore.SetPromoted(strings.Split(os.Getenv("VERIF_PROMOTE"), ","))
+	for _, sc := range Defs[id].Gen(tier) {
+		spec := sc.Spec.String()
+		ok := true
+		for _, sub := range subs {
+			if !strings.Contains(spec, sub) {
+				ok = false
+			}
+		}
+		if !ok {
+			continue
+		}
+		stats := explore.NewStats()
+		e := &explore.Explorer{Bound: bound, Stats: stats}
+		e.Explore(sc)
+		fmt.Printf("%s\n  executions=%d pruned=%d races=%v\n", spec, stats.Executions, stats.Pruned, stats.Races)
+		for k, v := range stats.Outcomes {
+			fmt.Printf("  %6d x %s\n", v, k)
+		}
+		if os.Getenv("VERIF_TRACE") != "" {
+			// every single-deviation schedule: where the deviation was and what came of it
+			s0, _ := explore.RunOnce(sc, nil)
+			for i, pt := range s0.Trace {
+				for alt := 1; alt < pt.N; alt++ {
+					pre := make([]int, i+1)
+					pre[i] = alt
+					s1, o := explore.RunOnce(sc, pre)
+					for _, ev := range s1.Events {
+						if strings.Contains(ev, "[deviation") {
+							fmt.Printf("  %s -> %s %s\n", strings.TrimSpace(ev), o.Violation, o.Class)
+						}
+					}
+				}
+			}
+		}
+		for _, f := range stats.Found {
+			fmt.Printf("  VIOLATION %s\n    %s\n", f.Violation, f.Msg)
+		}
+	}
 }
